@@ -1,4 +1,4 @@
-\* MIXED GRANULARITY, thorough: <= 2 records of 0 / 1 / 4 units at 0, 1, 3, 6 in units of 1, 2, 4 bytes x 12 windows x 7 lanes x -S L2
+\* MIXED GRANULARITY, thorough: <= 2 records of 0 / 1 / 4 units at 0, 1, 3, 6 in units of 1, 2, 4 bytes x 12 windows x 7 lanes
 CONSTANTS
   Dev = {}
   MaxRecs = 2
@@ -15,7 +15,7 @@ CONSTANTS
   LaneSet <- L_Mixed3
   FiltSet <- F_None
   ESet <- E_None
-  HdrSet <- H_Mixed
+  HdrSet <- H_None
 SPECIFICATION Spec
 INVARIANTS Conforms ConformsMixed StepRunAgrees ChunkListOK WindowStable WindowStableMixed MeasureSound MeasureSoundMixed UsedIsCoverage
 CHECK_DEADLOCK FALSE
